@@ -8,6 +8,10 @@ A *scenario* is a list of script steps
     ["deliver", dir, chunks]    move bytes of `dir` up to the end of the next completely serialized tracked
                                 call (or all bytes if there is none), cut into pieces by `chunks`
     ["gift", dir, j, ok]        resolve (ok) / fail the j-th (mod n) pending third-party reference (a call carries 1 or 2)
+    ["deliver_part", dir]       move the bytes of the next tracked call byte by byte and stop as soon as the receiver has asked its
+                                Tub for a third-party reference of that call (the call is then still incomplete); if it carries
+                                none this is an ordinary deliver
+    ["gift_early", dir, j, ok]  resolve / fail the j-th (mod n) third-party reference whose call is still being received
     ["advance", secs]           virtual time passes
     ["lose", dir]               the RECEIVER of direction dir gets connectionLost (Broker.finish); nothing is delivered to it
                                 afterwards and what it writes from then on goes nowhere
@@ -149,6 +153,8 @@ class Side:
         self.order = []         # cids in the order their serialization ended
         self.delivered = 0      # how many of self.order have been moved to the receiver
         self.ngifts = {}        # cid -> number of third-party references it carries
+        self.gift0 = set()      # cids whose third-party reference is sent with giftID 0 (what a peer may choose to do)
+        self.cut_at = None      # number of completely serialized calls when this sender lost the connection
 
 
 # simple class-level attributes of Broker / Banana on the reference tree: anything else of that kind is a configuration
@@ -217,6 +223,9 @@ class World:
         self.reenter = {}
         self.slow = [{}, {}]        # direction -> cid -> Deferred returned by the entered method
         self.deliv = [{}, {}]       # direction -> cid -> (InboundDelivery, ready_deferred) as handed to scheduleCall
+        self.nsched = [0, 0]        # direction -> number of scheduleCall invocations (tracked or not)
+        self.packets = [[], []]     # direction -> [(bytes of one packet, scheduleCalls so far, receiver between top-level
+                                    #                objects?, Banana.objectCounter)] as handed to dataReceived
         self.recv_lost = [False, False]     # the receiver of direction d has lost the connection
         self.send_lost = [False, False]     # the sender of direction d has lost the connection
         self.keep = []
@@ -264,6 +273,7 @@ class World:
         real_schedule = R.scheduleCall
 
         def scheduleCall(delivery, ready_deferred):
+            self.nsched[d] += 1
             cid = self._cid_of(delivery)
             if cid is not None:
                 self.events[d].append(("queued", cid))
@@ -316,6 +326,15 @@ class World:
                 rr = referenceable.RemoteReference(tracker)
                 self.keep.append(rr)
                 kw[slot] = rr
+                if spec.get("gift0"):
+                    # the sending side plays a peer that puts giftID 0 on the wire: (their-reference 0 url)
+                    side.gift0.add(cid)
+                    S = self.brokers[d]
+                    if not hasattr(S, "c04_gift0"):
+                        S.c04_gift0 = []
+                        real_make = S.makeGift
+                        S.makeGift = lambda rref, S=S, real_make=real_make: 0 if any(rref is x for x in S.c04_gift0) else real_make(rref)
+                    S.c04_gift0.append(rr)
         elif kind == "slow":
             kw["g"] = "slow"
         elif kind == "early":
@@ -371,33 +390,66 @@ class World:
             self.cur_ops[d].append(("S",))
             st.callback(None)
 
-    def deliver(self, d, chunks):
+    def deliver(self, d, chunks, part=False):
         if self.loopback:
             return          # the eventual queue moves the bytes
         side, tr, R = self.sides[d], self.tr[d], self.brokers[1 - d]
         if self.recv_lost[d]:
             return          # a transport delivers nothing after connectionLost
-        if side.delivered < len(side.order):
+        cid = None
+        if side.delivered < len(side.order) and (side.cut_at is None or side.delivered < side.cut_at):
             cid = side.order[side.delivered]
             upto = side.serialized[cid]
-            side.delivered += 1
-            self.cur_ops[d].append(("D",))
+        elif side.cut_at is not None:
+            upto = tr.written       # what a dead sender had written of an unfinished call may still trickle in
         else:
-            cid = None
             upto = tr.written
         n = upto - tr.moved
         before = len(self.events[d])
+        asked = len([u for u in R.tub.pending if cid is not None and u.rsplit("/", 1)[1].split("-")[2] == str(cid)])
         i = 0
+        stopped = False
         while n > 0:
-            k = max(1, min(n, chunks[i % len(chunks)] if chunks else n))
+            k = 1 if part else max(1, min(n, chunks[i % len(chunks)] if chunks else n))
             i += 1
             data = bytes(tr.buf[:k])
             del tr.buf[:k]
             tr.moved += k
             n -= k
             R.dataReceived(data)
-        if cid is not None and ("queued", cid) not in self.events[d][before:]:
-            self.events[d].append(("rejected", cid))
+            idle = len(R.receiveStack) == 1 and not R.discardCount and not R.inOpen
+            self.packets[d].append((list(data), self.nsched[d], bool(idle), R.objectCounter))
+            if part and n > 0 and cid is not None and \
+                    len([u for u in R.tub.pending if u.rsplit("/", 1)[1].split("-")[2] == str(cid)]) > asked:
+                stopped = True
+                break
+        if cid is not None and not stopped:
+            side.delivered += 1
+            self.cur_ops[d].append(("D",))
+            if ("queued", cid) not in self.events[d][before:]:
+                self.events[d].append(("rejected", cid))
+
+    def early_gifts(self, d):
+        """(cid, j) of unresolved third-party references of direction d whose call is still being received"""
+        R = self.brokers[1 - d]
+        out = []
+        for url, dd in R.tub.pending.items():
+            _, dn, cid, j = url.rsplit("/", 1)[1].split("-")
+            if int(dn) == d and not dd.called and ("queued", int(cid)) not in self.events[d]:
+                out.append((int(cid), int(j)))
+        return sorted(out)
+
+    def gift_early(self, d, j, ok):
+        pend = self.early_gifts(d)
+        if not pend or self.recv_lost[d]:
+            return
+        cid, idx = pend[j % len(pend)]
+        dd = self.brokers[1 - d].tub.pending[gift_url(d, cid, idx)]
+        self.cur_ops[d].append(("E", cid, ok))
+        if ok:
+            dd.callback("resolved-gift-%d-%d" % (cid, idx))
+        else:
+            dd.errback(failure.Failure(RuntimeError("gift %d/%d cannot be resolved" % (cid, idx))))
 
     def pending_gifts(self, d):
         """(cid, j) of the third-party references of direction d that are unresolved and whose call has been completely received"""
@@ -417,7 +469,7 @@ class World:
             return
         cid, idx = pend[j % len(pend)]
         dd = self.brokers[1 - d].tub.pending[gift_url(d, cid, idx)]
-        self.cur_ops[d].append(("G", cid, ok))
+        self.cur_ops[d].append(("G0" if cid in self.sides[d].gift0 else "G", cid, ok))
         if ok:
             dd.callback("resolved-gift-%d-%d" % (cid, idx))
         else:
@@ -432,6 +484,8 @@ class World:
         self.recv_lost[d] = True
         self.send_lost[1 - d] = True
         self.tr[1 - d].dead = True
+        self.sides[1 - d].cut_at = len(self.sides[1 - d].order)
+        self.cur_ops[1 - d].append(("C",))
         self.cur_ops[d].append(("X",))
         self.events[d].append(("lost", -1))
         R.connectionLost(failure.Failure(error.ConnectionLost()))
@@ -516,6 +570,9 @@ class World:
                 if self.pending_gifts(d):
                     self.gift(d, 0, True)
                     moved = True
+                if self.early_gifts(d) and not self.recv_lost[d]:
+                    self.gift_early(d, 0, True)
+                    moved = True
                 if any(not dd.called for dd in self.slow[d].values()):
                     self.finish(d, 0, True)
                     moved = True
@@ -593,6 +650,10 @@ def run_scenario(script, final_quiesce=True, loopback=False, knobs=None):
                 w.lose(st[1])
             elif st[0] == "advance":
                 w.advance(st[1])
+            elif st[0] == "deliver_part":
+                w.deliver(st[1], None, part=True)
+            elif st[0] == "gift_early":
+                w.gift_early(st[1], st[2], st[3])
             else:
                 raise ValueError(st)
             obs.append(w.end_step())
@@ -603,7 +664,8 @@ def run_scenario(script, final_quiesce=True, loopback=False, knobs=None):
         lost = [(not b.transport.connected) if loopback else b.transport.lost for b in w.brokers]
         E.ev._theSimpleQueue.__dict__.pop("_turn", None)
     return dict(obs=obs, ops=w.ops, events=w.events, issued=w.issued, results=w.results, errors=w.errors,
-                nsteps=nsteps, lost=lost, sent=[w.sides[0].sent, w.sides[1].sent], send_lost=w.send_lost, recv_lost=w.recv_lost)
+                nsteps=nsteps, lost=lost, sent=[w.sides[0].sent, w.sides[1].sent], send_lost=w.send_lost, recv_lost=w.recv_lost,
+                packets=w.packets, gift0=[sorted(w.sides[0].gift0), sorted(w.sides[1].gift0)])
 
 
 class LocalTarget(Referenceable):
